@@ -1174,7 +1174,9 @@ def relation_edges(f, lhs_pred, rhs_pred, rels):
             blk = f.blocks[d.block]
             cmps = [x for x in blk.elems[:d.idx] if x["k"] == "cmp" and x.get("op") in _NEG and (x.get("t") or "").strip("() ") in ((d.get("init") or {}).get("t") or "")]
             if cmps and not [a for a in f.events("assign") if (a.get("lhs") or {}).get("v") == d["var"]]:
-                boolvars[d["var"]] = cmps[-1]
+                it = re.sub(r"\s+", "", (d.get("init") or {}).get("t") or "")
+                neg_ = it.startswith("!") and not it.startswith("!=")
+                boolvars[d["var"]] = (cmps[-1], neg_)
     for b in f.blocks.values():
         t = b.term
         if not t or len(b.succs) != 2:
@@ -1189,8 +1191,8 @@ def relation_edges(f, lhs_pred, rhs_pred, rels):
                 continue
             v = (t.get("core") or {}).get("v")
             if v in boolvars and not t.get("cmp"):
-                c = boolvars[v]
-                truth = (k == 0) != bool(t.get("neg"))
+                c, neg_ = boolvars[v]
+                truth = ((k == 0) != bool(t.get("neg"))) != neg_
                 rel = c["op"] if truth else _NEG[c["op"]]
                 if match(c.get("lhs") or {}, rel, c.get("rhs") or {}):
                     out.append((b.id, k))
@@ -1300,3 +1302,39 @@ def caller_holds(prog, fn, mutex, base="this", depth=3, _memo=None):
             ok = False
     _memo[fn.id] = ok
     return ok
+
+
+def at_least_edges(fn_, operand_pred):
+    """[(block, k, n)]: edges on which an operand satisfying operand_pred(ref) is known to be >= n (n an integer constant), whichever way
+    the test is written (`x < 2` not taken, `x >= 2` taken, `x > 1` taken) and whether it is the branch condition itself (if / ?: /
+    loop) or a bool local initialised from it."""
+    out_ = []
+    is_int = lambda r_: re.match(r"^\(?-?\d+[uUlL]*\)?$", (r_.get("t") or "").replace(" ", "")) is not None
+    for rel, add in ((">=", 0), (">", 1)):
+        for bid, k in relation_edges(fn_, operand_pred, is_int, (rel,)):
+            t = fn_.blocks[bid].term
+            n = None
+            if isinstance(t.get("rconst"), int) and not isinstance(t.get("rconst"), bool):
+                n = t["rconst"]
+            else:
+                v = (t.get("core") or {}).get("v")
+                for d in fn_.events("decl"):
+                    if d.get("var") == v:
+                        m = re.search(r"(-?\d+)\s*\)?\s*$", ((d.get("init") or {}).get("t") or "").strip())
+                        m2 = re.search(r"^\(?\s*(-?\d+)\b", ((d.get("init") or {}).get("t") or "").strip().lstrip("!("))
+                        n = int(m.group(1)) if m else (int(m2.group(1)) if m2 else None)
+            if n is not None:
+                out_.append((bid, k, n + add))
+    return out_
+
+
+def term_refs(fn_, term):
+    """references of a branch condition, looking through a bool local it tests (`const bool fits = a + b <= max; if (!fits)`)"""
+    refs = list((term or {}).get("refs") or [])
+    v = ((term or {}).get("core") or {}).get("v")
+    if v and not (term or {}).get("cmp"):
+        for d in fn_.events("decl"):
+            if d.get("var") == v and (d.get("type") or "").replace("const ", "").strip() == "bool":
+                if not [a for a in fn_.events("assign") if (a.get("lhs") or {}).get("v") == v]:
+                    refs += list(d.get("refs") or [])
+    return refs
